@@ -214,6 +214,10 @@ func (c Cfg) Schema(of sod.Object) sod.Schema {
 				if p == "P" {
 					fd.Constraints.Unique = true
 				}
+				// (S is a plain string without case constraint: "A" and "a" are different values)
+				if p == "S" {
+					fd.Constraints.Unique = true
+				}
 			case indexable:
 				fd.Constraints.Index = true
 			}
